@@ -506,6 +506,12 @@ func exec(line string) (res h.Result) {
 			}
 		}
 		res.Oracle = first(o, unchanged("document", doc, keepD), unchanged("submitter", addr, keepA), o2)
+	case "cq":
+		return execCQ(w)
+	case "subm":
+		return execSubm(w)
+	case "grp":
+		return execGrp(w)
 	case "threshold":
 		n := h.Atoi(w[1])
 		res.Impl = strconv.Itoa(n/2 + 1)
@@ -699,6 +705,10 @@ func gen(tier string, rng *h.Rng, emit func(string)) {
 		}
 		emit(fmt.Sprintf("query %s %s %s %s %s", kind, parseOnce(doc, sel), h.Hex(randAddr(rng)), h.Hex(doc), h.Hex([]byte(sel))))
 	}
+	// round 4: concurrent evaluation with the rich selector grammar (conc.go)
+	genCQ(tier, rng, emit)
+	// round 4: explicit member lists and the group table (group.go)
+	genGroup(tier, rng, emit)
 }
 
 // ---- grammars
